@@ -427,23 +427,6 @@ func (k *checker) checkAll(ld *loaded, id int64, mkW func(node string) *Witness)
 					k.mode, n.Key, n.Kind, stName(gotSt), stName(o.v), n.childKinds()), id, func() interface{} { return mkW(n.Key) })
 		}
 		so := n.refStatus()
-		if so.has && n.hasLeaflessAggBelow() {
-			// The statement gives an empty set of critical descendants a meaning for
-			// the state ("no opinion") but says nothing of the kind for the status.
-			// An aggregator without any leaf below is still a child that shows a
-			// status; combining it with the others is a defensible reading of
-			// "the combination of its children". Both readings are accepted.
-			added := false
-			for _, h := range n.h1StatusSet().accept {
-				if !so.ok(h) {
-					so.accept = append(so.accept, h)
-					added = true
-				}
-			}
-			if added {
-				c.Count("leafless_subtree_both_readings_accepted", 1)
-			}
-		}
 		if !so.has {
 			c.Count("leafless_nodes_not_judged", 1)
 		} else if !so.ok(gotSs) {
@@ -514,9 +497,17 @@ func countTree(c *vlib.Ctx, ld *loaded) {
 				c.Count("noncritical_only_subtrees", 1)
 			}
 			if len(n.leafStatuses()) == 0 {
-				c.Count("leafless_subtrees", 1)
+				c.Count("leafless_subtrees_present", 1) // predicted to be pruned: stays 0
 			}
 		}
+	}
+	pruned := 0
+	for _, n := range ld.nodes {
+		pruned += n.Pruned
+	}
+	if pruned > 0 {
+		c.Count("trees_with_pruned_empty_subtrees", 1)
+		c.Count("pruned_empty_subtrees", int64(pruned))
 	}
 	c.Count(fmt.Sprintf("trees_depth_%d", depth), 1)
 	c.Count("leaves_total", int64(len(ld.leaves)))
